@@ -203,3 +203,53 @@ def capabilities(analysis):
             s.add("pub")
         caps.setdefault(q, set()).update(s)
     return caps, pm, raises_other
+
+
+class Trig:
+    """One trigger context: a way control reaches protocol code, with one abstract path."""
+    __slots__ = ("kind", "name", "slot", "path", "events", "decode_ok", "entry")
+
+    def __init__(self, kind, name, slot, path, events, decode_ok=True, entry=None):
+        self.kind, self.name, self.slot, self.path, self.events = kind, name, slot, path, events
+        self.decode_ok = decode_ok
+        self.entry = entry
+
+    def label(self):
+        if self.kind in ("API", "NET"):
+            return "%s(%s,%s)" % (self.kind, self.name, self.slot)
+        return "%s(%s)" % (self.kind, short(self.name))
+
+
+def contexts(cat):
+    """All trigger contexts of a protocol class (cached on the catalogue)."""
+    if getattr(cat, "_contexts", None) is not None:
+        return cat._contexts
+    out = []
+    for ent in cat.entries:
+        if ent.kind == "NET":
+            for kval, tname, bp in net_body_paths(cat):
+                evs = bp.pkt_events
+                d = [e for e in evs if e.kind == "DISPATCH"]
+                dec = [e for e in evs if e.kind == "DECODE"]
+                ok = all(x.a["ok"] for x in dec)
+                out.append(Trig("NET", tname if tname is not None else "?", d[0].a["slot"] if d else None, bp, evs, ok, ent))
+        elif ent.kind in ("API", "AUX"):
+            for p in ent.paths:
+                evs = list(p.walk())
+                d = [e for e in evs if e.kind == "DISPATCH"]
+                out.append(Trig(ent.kind, ent.name, d[0].a["slot"] if d else None, p, evs, True, ent))
+        else:
+            for p in ent.paths:
+                out.append(Trig(ent.kind, ent.name, None, p, list(p.walk()), True, ent))
+    cat._contexts = out
+    return out
+
+
+def honoured(tr, caps):
+    """Is this NET/API context one the dispatch matrix honours (C14's table)?"""
+    from .c14 import expected_api, expected_packet
+    if tr.kind == "API":
+        return expected_api(tr.name, tr.slot, caps)
+    if tr.kind == "NET":
+        return tr.slot is not None and expected_packet(tr.name, tr.slot, caps)
+    return True
